@@ -316,6 +316,32 @@ def run(rep, facts, tier):
                         found = True
         rep.check(found, 'R16.4', '%s/kind-compared' % name, 'header transformation kind compared with the key material',
                   '%s does not compare the header transformation kind with the key material' % name, b.where())
+        # ... and the comparison decides: from its mismatch edge no success is reachable (in the body that makes the comparison)
+        for c in bodies:
+            cog = Origins(c, summaries=True)
+            Pc = Pos(c)
+            succ = [(bb, si) for bb, si, st in c.statements() if st['s'] == 'assign' and st['rv']['r'] == 'agg' and
+                    (st['rv'].get('variant') == 'Success' or (st['rv'].get('variant') == 'Ok' and st['lhs']['l'] == 0 and not st['lhs'].get('p') and name == 'decode_serialized_payload'))]
+            k = 0
+            for s_, t_, cond, lab in switch_edges(c, fx, cog):
+                if not (cond[0] == 'call' and cond[1].endswith(('::eq', '::ne')) and len(cond[2]) == 2):
+                    continue
+                txt = term_str(cond)
+                if not ('transformation_kind' in txt or 'key_id' in txt):
+                    continue
+                if not ((cond[1].endswith('::eq') and lab is False) or (cond[1].endswith('::ne') and lab is True)):
+                    continue
+                k += 1
+                leak = [x for x in succ if Pc.can_reach((t_, 0), x, avoid_edges=infeasible_edges(c, fx, cog)) or Pc.norm((t_, 0)) == Pc.norm(x)]
+                # a function that hands its result on from a call (no Ok aggregate of its own): the mismatch edge must run into an Err construction on every path
+                errs = [(bb, si) for bb, si, st in c.statements() if st['s'] == 'assign' and st['lhs']['l'] == 0 and not st['lhs'].get('p') and st['rv']['r'] == 'agg' and st['rv'].get('variant') == 'Err']
+                errs += [(bb, 'term') for bb, t in c.calls() if callee_res(t).endswith('from_residual') and t.get('dest', {}).get('l') == 0]
+                if not succ:
+                    inf_c = infeasible_edges(c, fx, cog)
+                    leak += [(r, 'term') for r in c.return_blocks() if Pc.can_reach((t_, 0), (r, 'term'), avoid_pos=errs, avoid_edges=inf_c)]
+                rep.check(not leak, 'R16.4', '%s/%s/mismatch-rejects#%d' % (name, c.key.rsplit('::', 1)[-1] if c is not b else 'body', k), 'the mismatch edge reaches no success',
+                          '%s: the header %s is compared with the key material but a mismatch can still end in success: data protected under another transformation kind / key id '
+                          'is accepted' % (name, 'transformation kind' if 'transformation_kind' in txt else 'key id'), c.where(s_))
     dm = find_decode(fx, 'decode_rtps_message')
     og = Origins(dm, summaries=True)
     keyid = any((t['f'].get('def') or '').endswith(('PartialEq::eq', 'PartialEq::ne')) and 'key_id' in term_str(og.of_operand(t['args'][0], bb, 'term')) + term_str(og.of_operand(t['args'][1], bb, 'term'))
@@ -328,6 +354,7 @@ def run(rep, facts, tier):
     rule_16_7(rep, fx)
     rule_16_9(rep, fx)
     rule_16_10(rep, fx)
+    rule_16_11(rep, fx)
 
     # ------------------------------------------------------------ R16.8 crossed roles (shared lint, rdv/swaplint.py)
     from rdv import swaplint
@@ -637,3 +664,32 @@ def _subterms16(t):
                 walk(y)
     walk(t)
     return out
+
+
+def rule_16_11(rep, fx):
+    """What is decoded is what was encoded: every submessage found inside the decrypted content of a protected RTPS message is part of the decoded message."""
+    rep.rule('R16.11', 'nothing dropped: in decode_rtps_message every submessage parsed out of the decrypted content (Submessage::read_from_buffer == Some(s) in the loop) is pushed to the '
+                       'result before the next one is parsed, and the result list of the GMAC arm is the whole list after the InfoSource')
+    dm = find_decode(fx, 'decode_rtps_message')
+    n = 0
+    for b in [dm] + fx.closures_of(dm):
+        og = Origins(b, summaries=False)
+        P = Pos(b)
+        reads = [(bb, t) for bb, t in b.calls() if callee_res(t).endswith('Submessage::read_from_buffer')]
+        pushes = [(bb, 'term') for bb, t in b.calls() if callee_res(t).endswith('::push')]
+        from rdv.core import natural_loops
+        loops = natural_loops(b)
+        for rb, t in reads:
+            inloop = [l for l in loops if rb in l[1]]
+            if not inloop:
+                continue
+            n += 1
+            some = [(s_, t_) for s_, t_, cond, lab in switch_edges(b, fx, og) if lab == 'Some' and cond[0] == 'discr' and term_has(cond, lambda x: x[0] == 'call' and len(x) > 3 and x[3] == rb)]
+            ok = bool(some) and bool(pushes)
+            for s_, t_ in some:
+                if P.can_reach((t_, 0), (rb, 'term'), avoid_pos=pushes):
+                    ok = False
+            rep.check(ok, 'R16.11', 'decode_rtps_message/%s/every-submessage-kept' % (b.key.rsplit('::', 1)[-1] if b is not dm else 'body'), 'Some(submessage) => push before the next read',
+                      'decode_rtps_message can parse a submessage out of the decrypted content and not put it into the decoded message: the receiver decodes less than the sender encoded',
+                      b.where(rb))
+    rep.floor('R16.11', n, 1, 'submessage parsing loops in decode_rtps_message')
